@@ -11,6 +11,7 @@ import c10_gen as g
 sys.path.insert(0, os.path.join(c.VERIF, "translate"))
 import prec_table  # noqa: E402
 import ident_rules  # noqa: E402
+import c10_peg  # noqa: E402  (grammar layer: translate/pest2coq.py, coq/Peg.v, PEG-* streams)
 
 PID = "C10"
 MANIFEST = {
@@ -61,6 +62,11 @@ def regen_ident():
         raise c.BrokenTie("translate/ident_rules.py: grammar.pest missing", str(e))
     c.write_if_changed(os.path.join(c.GEN, "IdentRules.v"), txt)
     return info
+
+
+def regen_grammar():
+    """coq/gen/Grammar.v: grammar.pest as pest 2.8.3 compiles it (translate/pest2coq.py); see checks/c10_peg.py"""
+    return c10_peg.regen_grammar()
 
 
 def spelling_arms_shared():
@@ -874,6 +880,14 @@ def main(argv):
         # stale gen/IdentRules.v only so that the Coq files compile); the name / operator models do not
         res.tie_broken(e.what, e.detail)
         ident_ok = False
+    peg_ok = True
+    try:
+        res.streams["translator-grammar"] = regen_grammar()
+    except c.BrokenTie as e:
+        # grammar.pest uses a construct translate/pest2coq.py does not translate: the PEG model does not run
+        # (the stale gen/Grammar.v only keeps the Coq files compiling)
+        res.tie_broken(e.what, e.detail)
+        peg_ok = False
     bad_ids = [x for x in g.IDENTS if x in builtin_names]
     if bad_ids:
         res.tie_broken("generator identifiers collide with built-in names", ",".join(bad_ids))
@@ -913,6 +927,15 @@ def main(argv):
             t = tg.tree(1 + rng.below(5))
             par, wn = g.random_oracles(rng, t)
             meta.append((t, par, wn))
+    # ---- PEG: the grammar layer, model (Peg.v on gen/Grammar.v) vs pest's generated parser, full pair trees
+    if peg_ok:
+        try:
+            a, b = c10_peg.peg_streams(h, res, rng, tier, meta)
+            evaluations += a
+            validated += b
+        except c.BrokenTie as e:
+            res.tie_broken(e.what, e.detail)
+        lap(res, "PEG")
     # ---- searches on the implementation alone
     evaluations += small_search(h, res)
     evaluations += triple_search(h, res)
